@@ -54,6 +54,9 @@ def cases(tier, seed):
                  'function($v,$i,$a,$x,$y,$z){1}', 'function($v,$i,$a){$type($a) = "array"}', 'function($v,$i,$a){$count($a) > $i}', 'function($v,$i,$a){$a[$i] = $v}', 'function($v,$i,$a){$string($a)}',
                  'function($v,$i){$i = 0}', 'function($v,$i,$a){$i = $count($a) - 1}', 'function($v,$i,$a){$type($i) = "number" and $exists($a)}', '$replace', '$substring', '$pad', '$contains', '$append',
                  'function($v,$i){$i = 0 ? $v}', 'function($v,$i){$i > 0 ? $v}', 'function($v,$i,$a){$i = $count($a) - 1 ? nothing : $v}', 'function($v){nothing}', 'function($v){$v.nosuch}', 'function($v,$i){$i = 1 ? nothing : true}',
+                 # chains whose first stage yields no value for some members and whose later stage turns no value into a value
+                 '(function($v){$v > 5 ? $v}) ~> $count', '(function($v){$v > 5 ? $v}) ~> $exists', '(function($v){$v > 5 ? $v}) ~> function($x){$exists($x) ? $x : "none"}', '$lookup(?, "a") ~> $count',
+                 '(function($v){$v.nosuch}) ~> $not', '(function($v){nothing}) ~> $exists ~> $not', '$string ~> $length ~> (function($n){$n > 1 ? $n}) ~> $exists',
                  '$replace(?, ?, ?, ?)', '$substring(?, ?, ?)', '$append(?, ?)', 'function($v)<x:x>{$v}', 'function($v,$i)<xn:n>{$i}', 'function($v,$i,$a)<xna:a>{$a}', 'function($v,$i,$a,$x)<xnax:n>{$i}']
     subjects = [[], [5], [5, 6], [5, 6, 7], 5, 'x', {'a': 1}, [[1, 2]], [[1], [2]], [{'a': 1}, {'a': 2}], None, [True, False, 0, '']]
     for sub, f in itertools.product(subjects, observers):
